@@ -5,7 +5,7 @@ W = {'rect': 0.25, 'oct': 0.3, 'share': 0.15, 'lat': 0.1, 'gp': 0.15, 'degen': 0
 
 
 def run(rep, tier, seed):
-    relrun.run_rel(rep, 'C06', tier, seed, relprops.build_c06, W, 120 if tier == 'quick' else 3000,
+    relrun.run_rel(rep, 'C06', tier, seed, relprops.build_c06, W, 220 if tier == 'quick' else 3000,
                    'each group = op(A,B), op(B,A) for the symmetric operations, A op A for all four, op(A,empty), op(empty,A); ring sets '
                    'compared after normalising start and order on the exact class, regions by the verified checker otherwise; results with '
                    'an empty operand compared literally.')
